@@ -13,6 +13,12 @@ import (
 	"time"
 )
 
+// Heartbeat, if set, is called every 8192 scheduler steps: the worker uses it to
+// show the orchestrator that a long run is still making progress (real time is
+// read only here, outside everything the simulation can observe).
+var Heartbeat func()
+
+
 // Entry is one parked goroutine.
 type Entry struct {
 	ID    string
@@ -522,6 +528,9 @@ func (s *Sim) Loop() {
 		}
 		pick.in = false
 		s.step++
+		if s.step&8191 == 0 && Heartbeat != nil {
+			Heartbeat()
+		}
 		s.last = pick.ID
 		if s.DebugElig {
 			var ids []string
